@@ -198,3 +198,7 @@ Definition loracle (c : lcase) : bool :=
   && (if lc_timeout c then negb (lc_pending c) else true)
   && (match obs with [OReply _] => negb (lc_pending c) | _ => true end)
   && lc_usable c.
+
+(** both at once (the common, green case needs one evaluation only) *)
+Definition pboth (c : pcase) : bool := poracle c && pagree c.
+Definition lboth (c : lcase) : bool := loracle c && lagree c.
